@@ -152,7 +152,7 @@ def body_model(S, spec):
     if S.mode == "sym":
         import z3
         for nm in ("t", "V", "Ua", "Ub", "mua", "mub"):
-            zt.ctl().assume(z3.Real(nm) != 0, "model coefficients non-zero", light=True)
+            zt.ctl().assume(z3.Real(nm) != 0, "input: model coefficients non-zero", light=True)
     za, zb = spec["coordinations"]
     like = like_for(S)
     if model == "spinless":
@@ -190,6 +190,31 @@ def body_model(S, spec):
     exp = expected_tensor(Fock(modes), terms, bases)
     compare_array(S, f"{model}/{sym}", G, exp, [im] * len(bases))
     S.require("charge", G.charge == gs.identity(sym), f"charge {G.charge!r}")
+
+
+def body_array(S, spec):
+    """build_local_fermionic_array for arbitrary (heterogeneous) bases and charge maps: every stored element sits at the
+    address its own site's charge map assigns, and equals the vacuum expectation value"""
+    sym, bases, ims = spec["sym"], spec["bases"], spec["index_maps"]
+    modes = sorted({m for b in bases for st in b for m in st})
+    terms = [(S.scalar(f"c{k}"), ops) for k, (_, ops) in enumerate(spec["terms"])]
+    if S.mode == "sym":
+        import z3
+        for k in range(len(terms)):
+            zt.ctl().assume(z3.Real(f"c{k}") != 0, "input: coefficients non-zero", light=True)
+    import warnings
+    with warnings.catch_warnings():
+        warnings.simplefilter("ignore")
+        G = sr.build_local_fermionic_array(lib_terms(S, terms), lib_bases(bases), sym, index_maps=[list(im) for im in ims], like=like_for(S))
+    exp = expected_tensor(Fock(modes), terms, bases)
+    # elements in sectors that do not conserve the charge are dropped by the conversion: expect them only where conserved
+    n = len(bases)
+    keep = {}
+    for idx, v in exp.items():
+        sec = [ims[s % n][i] for s, i in enumerate(idx)]
+        duals = [False] * n + [True] * n
+        keep[idx] = v if gs.sector_charge(sym, sec, duals) == gs.identity(sym) else 0
+    compare_array(S, "array", G, keep, list(ims))
 
 
 def state_tensor(S, sym, index_maps, charge, label):
@@ -285,7 +310,7 @@ def body_action(S, spec):
                 S.equal(f"product@{k}", c2_.get(k, 0), c12_.get(k, 0))
 
 
-BODIES = {f.__name__: f for f in (body_elements, body_model, body_action)}
+BODIES = {f.__name__: f for f in (body_elements, body_model, body_action, body_array)}
 
 
 def _run(case):
@@ -379,6 +404,25 @@ def build_family(tier, seed):
                 tl = [(None, rng.choice(ops_list)) for _ in range(rng.choice((1, 2, 3)))]
                 tl2 = [(None, rng.choice(ops_list)) for _ in range(rng.choice((1, 2)))] if k % 2 == 0 else None
                 ac.append(dict(sym=sym, bases=bs, index_maps=ims, charge=q, terms=tl, terms2=tl2))
+    # arrays over heterogeneous bases: sites with different orderings / subsets of states and hence different charge maps
+    ar_ = []
+    het = [
+        ("U1", [[(), ("a",)], [("b",), ()]], [[0, 1], [1, 0]]),
+        ("Z2", [[(), ("a",)], [("b",), ()]], [[0, 1], [1, 0]]),
+        ("U1", [[(), ("a",)], [(), ("d",), ("u",), ("u", "d")]], [[0, 1], [0, 1, 1, 2]]),
+        ("Z2", [[("a",)], [(), ("b",)], [("c",), ()]], [[1], [0, 1], [1, 0]]),
+        ("U1", [[(), ("a",)], [("b",), ()], [(), ("c",)]], [[0, 1], [1, 0], [0, 1]]),
+        ("U1U1", [[(), ("d",), ("u",), ("u", "d")], [("v", "w"), ("v",), ("w",), ()]], [[(0, 0), (0, 1), (1, 0), (1, 1)], [(1, 1), (1, 0), (0, 1), (0, 0)]]),
+    ]
+    for sym, bs, ims in het:
+        modes = sorted({m for b in bs for st in b for m in st})
+        pairs = [[(m, True), (m2, False)] for m in modes for m2 in modes]
+        if sym == "U1U1":
+            pairs = [[(m, True), (m, False)] for m in modes] + [[("u", True), ("v", False)], [("v", True), ("u", False)], [("d", True), ("w", False)]]
+        opsl = pairs + [p_ + q_ for p_ in pairs[:3] for q_ in pairs[-3:]]
+        for k in range(12 if not thorough else 80):
+            ar_.append(dict(sym=sym, bases=bs, index_maps=ims, terms=[(None, rng.choice(opsl)) for _ in range(rng.choice((1, 2, 3)))]))
+    groups["array-heterogeneous-bases"] = ([dict(body="body_array", spec=c, sample=(i % 30 == 0), seed=seed + i) for i, c in enumerate(ar_)], False)
     groups["action"] = ([dict(body="body_action", spec=c, sample=(i % 100 == 0), seed=seed + i) for i, c in enumerate(ac)], False)
     return groups
 
